@@ -9,7 +9,7 @@ from ..cfg import always_raises
 from ..const import CallVal, EnumVal, module_const
 from ..core import AnalysisError, calls_in, call_name, const_str, dotted, unparse, walk_no_nested
 from ..isa import load_isa
-from ..match import (Field, eq_const_test, field_of, if_chain, inline, kwarg, pack_call, returns_of,
+from ..match import (Field, last_assignments, eq_const_test, field_of, if_chain, inline, kwarg, pack_call, returns_of,
                      single_assignments)
 from ..report import VERIF, Ctx
 
@@ -520,5 +520,117 @@ def r6_rejection_discipline(ctx: Ctx) -> None:
     ctx.count("lookups", len(subs))
 
 
+
+INDEXED_MODES_REF = {"direct_indexed", "indirect_indexed", "indirect_indexed_long", "dp_or_sr_indirect_indexed", "stack_indexed_indirect_indexed"}
+
+
+def r7_field_plumbing(ctx: Ctx) -> None:
+    """parser -> AST node -> code generator -> OpcodeNode -> emitter: every shape component travels in its own field."""
+    po = ctx.repo.func(PSTATES, "parse_opcode")
+    ctor = calls_in(po.node, "OpcodeAstNode")[0]
+    kws = {k.arg: k.value for k in ctor.keywords}
+    ctx.check(unparse(kws.get("addressing_mode")) == "addressing_mode", "parse_opcode:addressing_mode", "the mode chosen from the operand shape is stored")
+    ctx.check(unparse(kws.get("opcode")) == "opcode.value", "parse_opcode:opcode", "the mnemonic text is stored")
+    ctx.check(unparse(kws.get("operand")) == "operand", "parse_opcode:operand", "the operand expression is stored")
+    vs = kws.get("value_size")
+    ok = isinstance(vs, ast.IfExp) and unparse(vs.body) == "size" and "is_value_size(size)" in unparse(vs.test) and unparse(vs.orelse) == "None"
+    ctx.check(ok, "parse_opcode:value_size", f"an explicit valid suffix is stored as the width, else None; found `{unparse(vs)}`")
+    sz = [n for n in walk_no_nested(po.node) if isinstance(n, ast.Assign) and unparse(n.targets[0]) == "size" and "value" in unparse(n.value)]
+    guard_ok = False
+    for st in walk_no_nested(po.node):
+        if isinstance(st, ast.If) and "TokenType.OPCODE_SIZE" in unparse(st.test) and sz and sz[0] in st.body:
+            guard_ok = True
+    ctx.check(guard_ok, "parse_opcode:size-token", "the width comes from the OPCODE_SIZE token")
+    isz = ctx.repo.func(PSTATES, "is_value_size")
+    lits = [n for n in ast.walk(isz.node) if isinstance(n, (ast.List, ast.Tuple, ast.Set))]
+    ok = len(lits) == 1 and {const_str(e) for e in lits[0].elts} == set(size_map(ctx))
+    ctx.check(ok, "is_value_size", "valid suffixes are exactly the widths of the opcode table")
+    an = ctx.repo.func("a816.parse.ast.nodes", "OpcodeAstNode.__init__")
+    st = {unparse(n.targets[0]): unparse(n.value) for n in walk_no_nested(an.node) if isinstance(n, ast.Assign)}
+    for f in ("addressing_mode", "opcode", "value_size", "operand", "index"):
+        ctx.check(st.get(f"self.{f}") == f, f"OpcodeAstNode.__init__:{f}", "field holds the like-named argument")
+    go = ctx.repo.func("a816.parse.codegen", "generate_opcode")
+    env = last_assignments(go.node)
+    table = extract_table(ctx)
+    indexed_in_table = {k[1] for k in table if k[2] is not None}
+    ctors = calls_in(go.node, "OpcodeNode")
+    ctx.count("OpcodeNode_constructions", len(ctors))
+    modes_with_index: set[str] = set()
+    for st_ in walk_no_nested(go.node):
+        if isinstance(st_, ast.If) and isinstance(st_.test, ast.Compare) and isinstance(st_.test.ops[0], ast.In) and unparse(inline(st_.test.left, env)) == "node.addressing_mode":
+            modes_with_index = {(dotted(e) or "").split(".")[-1] for e in st_.test.comparators[0].elts}  # type: ignore[attr-defined]
+            with_index_body, without_index_body = st_.body, st_.orelse
+    ctx.check(indexed_in_table <= modes_with_index, "generate_opcode:indexed-modes", f"every mode keyed by an index letter in the table ({sorted(indexed_in_table)}) passes the index on; the generator lists {sorted(modes_with_index)}")
+    for c in ctors:
+        kw = {k.arg: unparse(inline(k.value, env)) for k in c.keywords}
+        first = unparse(inline(c.args[0], env)) if c.args else None
+        tag = "none" if "value_node" not in kw else ("indexed" if "index" in kw else "plain")
+        ctx.check(first == "node.opcode" and kw.get("addressing_mode") == "node.addressing_mode", f"generate_opcode[{tag}]:mnemonic+mode", f"OpcodeNode({first}, addressing_mode={kw.get('addressing_mode')})")
+        if tag != "none":
+            ctx.check(kw.get("size") == "node.value_size", f"generate_opcode[{tag}]:size", f"the explicit width reaches the node; size={kw.get('size')}")
+            ctx.check(kw.get("value_node", "").startswith("ExpressionNode(node.operand, resolver, file_info)"), f"generate_opcode[{tag}]:operand", f"value_node={kw.get('value_node')}")
+        if tag == "indexed":
+            ctx.check(kw.get("index") == "node.index", "generate_opcode[indexed]:index", f"index={kw.get('index')}")
+    ctx.check(any("index" in {k.arg for k in c.keywords} for c in ctors), "generate_opcode:passes-index", "some construction passes the index register")
+    on = ctx.repo.func(NODES, "OpcodeNode.__init__")
+    st = {unparse(n.targets[0]): unparse(n.value) for n in walk_no_nested(on.node) if isinstance(n, ast.Assign)}
+    for f in ("addressing_mode", "index", "value_node", "size"):
+        ctx.check(st.get(f"self.{f}") == f, f"OpcodeNode.__init__:{f}", "field holds the like-named argument")
+    em = ctx.repo.func(NODES, "OpcodeNode.emit")
+    ecall = [c for c in calls_in(em.node) if call_name(c) == "opcode_emitter.emit"]
+    ctx.check(len(ecall) == 1 and [unparse(a) for a in ecall[0].args] == ["self.value_node", "self.resolver", "self.size"], "OpcodeNode.emit:arguments", "the emitter receives this node's operand and explicit width")
+    ctx.floor("OpcodeNode_constructions", 3)
+
+
+def r8_lexer_token_facts(ctx: Ctx) -> None:
+    lo = ctx.repo.func("a816.parse.scanner_states", "lex_operand")
+    pairs: dict[str, str] = {}
+    for st in walk_no_nested(lo.node):
+        if isinstance(st, ast.If):
+            arms, _ = if_chain(st)
+            for test, body in arms:
+                t = eq_const_test(test)
+                if t and t[0] == "p" and isinstance(t[1], str):
+                    emits = [(dotted(c.args[0]) or "").split(".")[-1] for b in body for c in calls_in(b) if call_name(c) == "s.emit"]
+                    consumes = any(call_name(c) == "s.next" for b in body for c in calls_in(b))
+                    if emits and consumes:
+                        pairs[t[1]] = emits[0]
+    want = {"#": "SHARP", "(": "LPAREN", "[": "LBRAKET", ")": "RPAREN", "]": "RBRAKET"}
+    for ch, tok in want.items():
+        ctx.count("bracket_tokens")
+        ctx.check(pairs.get(ch) == tok, f"lex_operand:{ch}", f"`{ch}` is consumed and emitted as {tok}; found {pairs.get(ch)}")
+    seq = []
+    for st in lo.node.body:
+        u = unparse(st)
+        if u == "lex_expression(s)":
+            seq.append("expr")
+        elif isinstance(st, ast.If) and unparse(st.test) == "s.accept(',')" and [unparse(b) for b in st.body] == ["lex_opcode_index(s)"]:
+            seq.append("index")
+        elif isinstance(st, ast.If) and any(t and t[1] in (")", "]") for t in [eq_const_test(a[0]) for a in if_chain(st)[0]]):
+            seq.append("close")
+        elif isinstance(st, ast.If) and any(t and t[1] in ("(", "[", "#") for t in [eq_const_test(a[0]) for a in if_chain(st)[0]]):
+            seq.append("open")
+    ctx.check(seq == ["open", "expr", "index", "close", "index"], "lex_operand:order", f"prefix, expression, inner index, closing bracket, outer index; found {seq}")
+    li = ctx.repo.func("a816.parse.scanner_states", "lex_opcode_index")
+    em = [(dotted(c.args[0]) or "").split(".")[-1] for c in calls_in(li.node) if call_name(c) == "s.emit"]
+    ctx.check(em == ["ADDRESSING_MODE_INDEX"], "lex_opcode_index:token", "an index letter becomes an ADDRESSING_MODE_INDEX token")
+    ls = ctx.repo.func("a816.parse.scanner_states", "lex_opcode_size")
+    em = [(dotted(c.args[0]) or "").split(".")[-1] for c in calls_in(ls.node) if call_name(c) == "s.emit"]
+    ctx.check(em == ["OPCODE_SIZE"] and any(call_name(c) == "lex_operand" for c in calls_in(ls.node)), "lex_opcode_size:token", "a size letter becomes an OPCODE_SIZE token, then the operand is lexed")
+    lop = ctx.repo.func("a816.parse.scanner_states", "lex_opcode")
+    dot = [s_ for s_ in lop.node.body if isinstance(s_, ast.If) and unparse(s_.test) == "s.accept('.')" and [unparse(b) for b in s_.body] == ["lex_opcode_size(s)"]]
+    ctx.check(len(dot) == 1, "lex_opcode:suffix", "a dot after the mnemonic introduces the size suffix")
+    naked = [c for c in calls_in(lop.node) if call_name(c) == "s.emit" and (dotted(c.args[0]) or "").endswith("OPCODE_NAKED")]
+    guard = [s_ for s_ in walk_no_nested(lop.node) if isinstance(s_, ast.If) and "opcodes_without_operand" in unparse(s_.test)]
+    ok = len(naked) == 1 and len(guard) == 1 and any(x is naked[0] for x in ast.walk(guard[0])) and not any(x is naked[0] for o in guard[0].orelse for x in ast.walk(o))
+    ctx.check(ok, "lex_opcode:naked", "only a mnemonic that has an implied form, followed by nothing on its line, is lexed as operand-less")
+
+
+def rb_binding_agreement(ctx: Ctx) -> None:
+    from ..ownership import binding_agreement
+
+    binding_agreement(ctx)
+
+
 RULES = [r1_table_subset_of_isa, r2_supported_set_kept, r3_operand_packing, r4_width_selection, r5_shape_to_mode,
-         r6_rejection_discipline]
+         r6_rejection_discipline, r7_field_plumbing, r8_lexer_token_facts, rb_binding_agreement]
